@@ -21,7 +21,8 @@ use std::collections::{BTreeMap, HashMap};
 
 thread_local! {
     static SYMS: RefCell<HashMap<String, String>> = RefCell::new(HashMap::new());
-    static TRACE: RefCell<Vec<String>> = RefCell::new(Vec::new());
+    static TRACE: RefCell<Vec<Vec<String>>> = RefCell::new(vec![vec![], vec![], vec![]]);
+    static CUR_APP: RefCell<usize> = RefCell::new(0);
 }
 
 pub fn real(sym: &str) -> String {
@@ -34,7 +35,8 @@ fn bind_sym(sym: &str, real: &str) {
 
 fn reset_tls() {
     SYMS.with(|s| s.borrow_mut().clear());
-    TRACE.with(|t| t.borrow_mut().clear());
+    TRACE.with(|t| *t.borrow_mut() = vec![vec![], vec![], vec![]]);
+    CUR_APP.with(|c| *c.borrow_mut() = 0);
 }
 
 // ------------------------------------------------------------------------------------------------
@@ -327,7 +329,8 @@ impl Scripted {
             extra,
             notes.join(";")
         );
-        TRACE.with(|t| t.borrow_mut().push(line));
+        let cur = CUR_APP.with(|c| *c.borrow());
+        TRACE.with(|t| t.borrow_mut()[cur].push(line));
         res.map_err(|_| anyhow::anyhow!("scripted failure"))
     }
 }
@@ -499,7 +502,7 @@ fn outcome<T>(r: Option<AnyResult<T>>, f: impl FnOnce(T) -> String) -> String {
 
 pub fn exec_wasm(lines: &[String]) -> Vec<String> {
     reset_tls();
-    let mut apps: Vec<App> = vec![App::default(), App::default()];
+    let mut apps: Vec<App> = vec![App::default(), App::default(), App::default()];
     let mut cur = 0usize;
     let mut out = vec![];
     for line in lines {
@@ -514,9 +517,15 @@ pub fn exec_wasm(lines: &[String]) -> Vec<String> {
         let app = &mut apps[cur];
         let res: String = match a(0) {
             "app" => {
-                cur = if a(1) == "2" { 1 } else { 0 };
+                cur = match a(1) {
+                    "2" => 1,
+                    "3" => 2,
+                    _ => 0,
+                };
+                CUR_APP.with(|c| *c.borrow_mut() = cur);
                 "ok".into()
             }
+            "section" => "ok".into(),
             "bind" => {
                 let r = compute_sym(app, a(1)).unwrap_or_else(|| a(2).to_string());
                 bind_sym(a(1), &r);
@@ -716,7 +725,7 @@ pub fn exec_wasm(lines: &[String]) -> Vec<String> {
             "dump" => dump(app),
             "rawhash" => raw_hash(app),
             "trace" => TRACE.with(|t| {
-                let v = std::mem::take(&mut *t.borrow_mut());
+                let v = std::mem::take(&mut t.borrow_mut()[cur]);
                 format!("trace[{}]", v.join(" || "))
             }),
             _ => "bad-op".into(),
